@@ -895,8 +895,9 @@ impl Server for Gs3Server {
                 } else {
                     (None, body)
                 };
+                // a server without challenge ("0") expects no challenge field; one with a challenge expects it
                 let ok = match chal {
-                    Some(c) => c == self.st.challenge,
+                    Some(c) => self.st.challenge != 0 && c == self.st.challenge,
                     None => self.st.challenge == 0,
                 };
                 if !ok || payload != self.expected_payload {
